@@ -479,6 +479,18 @@ func (e *env) explore(thorough bool) {
 		{"device-key,no-kex-claim (a TO1 token relayed by a rogue rendezvous server)", func(a *adv) []byte { return a.proveDevice(e.w.Dev.Key, guid, a.nonce, false, true) }},
 		{"device-key,no-setup-nonce", func(a *adv) []byte { return a.proveDevice(e.w.Dev.Key, guid, a.nonce, true, false) }},
 		{"genuine-64-of-another-session", func(a *adv) []byte { return genuine[64] }},
+		{"recorded-signature-of-a-genuine-64-on-a-payload-rewritten-for-this-session", func(a *adv) []byte {
+			// protected header and signature of the token this very process verified in the honest run; payload with
+			// this session's nonce, the right UEID and the adversary's own key-exchange parameter
+			mine := a.proveDevice(keys.Get(e.kind.Alg, "stranger"), guid, a.nonce, true, true)
+			gi, _, err1 := rc.Parse(genuine[64])
+			mi, _, err2 := rc.Parse(mine)
+			if err1 != nil || err2 != nil || gi.Kind != rc.Tag || mi.Kind != rc.Tag || len(gi.Items[0].Items) != 4 || len(mi.Items[0].Items) != 4 {
+				return nil
+			}
+			g, m := gi.Items[0], mi.Items[0]
+			return rc.Encode(rc.Tg(18, rc.A(g.Items[0], m.Items[1], m.Items[2], g.Items[3])))
+		}},
 	}
 	for _, b := range bads {
 		a := e.newAdv()
@@ -634,7 +646,7 @@ func main() {
 		cfgs = append(cfgs, cfg{"ec384", kex.ECDH384Suite, kex.A256GcmCipher}, cfg{"ec256", kex.ECDH256Suite, kex.CoseAes128CbcCipher}, cfg{"rsapss3072", kex.DHKEXid15Suite, kex.CoseAes256CtrCipher},
 			cfg{"rsapkcs3072", kex.ASYMKEX3072Suite, kex.A192GcmCipher}, cfg{"rsapss2048", kex.DHKEXid14Suite, kex.CoseAes256CbcCipher}, cfg{"ec384", kex.ECDH384Suite, kex.CoseAes128CtrCipher})
 	}
-	r.Rule("per configuration: an honest TO2 (non-vacuity: completes, one voucher replacement, owner module ran), then one deviation per run against the real handler+TO2Server: every single-node alteration (thorough: plus every byte ^0x01) of the genuine HelloDevice, GetOVNextEntry and ProveDevice in the device's own live session; structurally perfect ProveDevice tokens signed by 5-6 foreign keys; tokens signed by the genuine device key but with a wrong nonce, another device's UEID, without the key-exchange claim (a relayed TO1 token), without SetupDevice nonce, with the nonce claim one octet short / one zero octet long / empty / equal to the issued nonce with trailing zero octets stripped (in a session found to have issued a nonce ending in zero), or recorded in another session; another device proving itself inside this device's session; messages 66/68/70 after {only 60, 60+62s, a failed 64} as plaintext, as ciphertext of another session, under an all-zero key, under a random key, empty; in-session replay of 64; plaintext / empty 66/68/70 against a deployment whose TO2 responder is wrapped by a middleware exposing Respond and HandleError only. Oracle per session token: any response 65/67/69/71 => reference predicate (a ProveDevice received in that session verifies under the voucher's device-certificate key, carries the nonce issued in that session, the UEID of the session's GUID, a key-exchange parameter and SetupDevice nonce); voucher replacement or owner-module call => some session satisfied it.")
+	r.Rule("per configuration: an honest TO2 (non-vacuity: completes, one voucher replacement, owner module ran), then one deviation per run against the real handler+TO2Server: every single-node alteration (thorough: plus every byte ^0x01) of the genuine HelloDevice, GetOVNextEntry and ProveDevice in the device's own live session; structurally perfect ProveDevice tokens signed by 5-6 foreign keys; tokens signed by the genuine device key but with a wrong nonce, another device's UEID, without the key-exchange claim (a relayed TO1 token), without SetupDevice nonce, with the nonce claim one octet short / one zero octet long / empty / equal to the issued nonce with trailing zero octets stripped (in a session found to have issued a nonce ending in zero), recorded in another session, or the recorded signature of a genuine token on a payload rewritten for this session; another device proving itself inside this device's session; messages 66/68/70 after {only 60, 60+62s, a failed 64} as plaintext, as ciphertext of another session, under an all-zero key, under a random key, empty; in-session replay of 64; plaintext / empty 66/68/70 against a deployment whose TO2 responder is wrapped by a middleware exposing Respond and HandleError only. Oracle per session token: any response 65/67/69/71 => reference predicate (a ProveDevice received in that session verifies under the voucher's device-certificate key, carries the nonce issued in that session, the UEID of the session's GUID, a key-exchange parameter and SetupDevice nonce); voucher replacement or owner-module call => some session satisfied it.")
 	var wg sync.WaitGroup
 	for _, c := range cfgs {
 		wg.Add(1)
